@@ -288,7 +288,8 @@ theorem scope_sub_patch (env : Env) (evs : List Ev) (sS sP : MState)
     normally and the two scope structures of the environment are coherent on the active lines
     (`cohOK`: a line inside a function lies in a track scope of that same function; the insert
     position of a keyed line lies inside a function; two lines with the same insert position have
-    the same key — decidable, evaluated by the harness on every judged input, `judge:coh`), the
+    scope keys of the same function — decidable, evaluated by the harness on every judged input,
+    `judge:coh`), the
     func run has no more positions than the scope run, the same single-line positions, and
     `count` does not increase. -/
 theorem func_le_scope (env : Env) (evs : List Ev) (sF sS : MState)
@@ -296,14 +297,29 @@ theorem func_le_scope (env : Env) (evs : List Ev) (sF sS : MState)
     (hc : cohOK env evs = true) :
     sF.multi.length ≤ sS.multi.length ∧ sF.singles = sS.singles ∧ sF.count ≤ sS.count := by
   obtain ⟨hcoh, hfresh⟩ := cohOK_spec env evs hc
-  have h := run_func_scope env (activeLines env evs) evs rfl hcoh hfresh evs (fun _ h => h) {} sF {} sS
+  have h := run_func_scope env (activeLines env evs) evs rfl hcoh evs (fun _ h => h) {} sF {} sS
     (Inv.init _) (Inv.init _) hF hS (FSRel.init env _)
   have iF := runEvents_inv _ evs sF hF
   have iS := runEvents_inv _ evs sS hS
-  have h1 : sF.multi.length ≤ sS.visitedScopes.length :=
-    length_le_of_image (fun k => funcPos env (keyFunc env k)) sF.multi sS.visitedScopes iF.nodup h.funcs
-  have h2 := h.len
-  refine ⟨by omega, h.singles, ?_⟩
+  -- p ~ q: q is the insert position of an active line whose key lies in the function placed at p
+  let R : Nat → Nat → Prop := fun p q => ∃ l ∈ activeLines env evs, ∃ k, keyOf env l = some k ∧
+    skipOf env l = .ok q ∧ funcPos env (keyFunc env k) = some p
+  have h1 : sF.multi.length ≤ sS.multi.length := by
+    apply length_le_of_rel R sF.multi sS.multi iF.nodup
+    · intro p hp
+      obtain ⟨k, hk, hfp⟩ := h.funcs p hp
+      obtain ⟨l, hl, hkl, q, hq, hs⟩ := h.keys k hk
+      exact ⟨q, hq, l, hl, k, hkl, hs, hfp⟩
+    · intro p1 p2 q ⟨l1, hl1, k1, hk1, hs1, hf1⟩ ⟨l2, hl2, k2, hk2, hs2, hf2⟩
+      have := hfresh l1 hl1 l2 hl2
+      unfold freshPair at this
+      rw [hs1, hs2] at this
+      simp only [bne_self_eq_false, Bool.false_or, beq_iff_eq, lineFunc, hk1, hk2, Option.map_some,
+        Option.some.injEq] at this
+      rw [this] at hf1
+      rw [hf1] at hf2
+      exact Option.some.inj hf2
+  refine ⟨h1, h.singles, ?_⟩
   rw [iF.count, iS.count, h.singles]
   omega
 
